@@ -20,6 +20,14 @@ CHECKS['C19'] = dict(
     note='Trusted: z3; adjugate/determinant stand-in for np.linalg.inv; np.round modelled as nearest integer with either choice on exact ties '
          '(obligations that need a definite rounding assume no tie, as the property does).',
     design='3/C19', technique=SYMX + '; mixed Int/Real queries split by let-abstraction')
+CHECKS['C07'] = dict(
+    text='The real move_mol_atom / find_atom_random_displ run on symbolic coordinates, displacement, bond table (independent positive lengths) '
+         'and symbolic random draws, for every labelled tree up to 5 (quick) / 6 (thorough, plus 7-atom families) atoms and every moved atom, '
+         'and for cyclic graphs up to 5 atoms (traversal tree read from the real deque traffic).  Each bond-length restoration, the exact '
+         'displacement of the moved atom, input immutability and perpendicularity of the random displacement is an SMT obligation per path.',
+    note='Trusted: z3; np.random stubs return arbitrary values of the documented support; degenerate paths (coincident atoms in a propagation '
+         'step => division by zero) are outside the genericity precondition and are listed, not claimed.',
+    design='3/C07', technique=SYMX + '; exhaustive structural enumeration of bond graphs within the bound')
 NOT_YET = {}
 def main():
     props = [json.loads(l) for l in open(os.path.join(HERE, 'properties.jsonl'))]
